@@ -2,6 +2,7 @@ import Revm.Proofs.InterpTop
 import Revm.Proofs.InterpTable
 import Revm.Proofs.InterpEofTop
 import Revm.Proofs.InterpEofC26
+import Revm.Proofs.InterpEofValid
 /-! # C25 — memory-safe, terminating interpretation
 
 "For any legacy bytecode, calldata, gas limit and hardfork, and for any EOF container that passes validation,
@@ -23,8 +24,8 @@ environments that passed `validate_block_env` (`prevrandao` present from the Mer
 gas it was given, and never `FatalExternalError`, which the EVM loop intercepts before `insert_*_outcome`), all fuel.
 
 EOF: every EOF instruction is modelled (`IState.initEof`); the statements are proved for every container that
-satisfies the explicit decidable well-formedness predicate `wfCtxB` (section "EOF" below); that validation implies
-`wfCtxB` is the named gap `ValidationGivesWf` — see `FullStatementEof` at the end. -/
+satisfies the explicit well-formedness predicate `WfCtx` (decidable version `wfCtxB`, section "EOF" below), and
+validation implies it (`validation_gives_wf`), so `FullStatementEof` at the end is proved (`fullStatementEof`). -/
 namespace Revm.Props.C25
 open Revm Revm.Model Revm.Model.Interp Revm.Proofs.Interp
 
@@ -242,7 +243,7 @@ theorem eof_opcodes_stop_in_legacy (s : IState) (h1 : s.isEof = false) (h2 : s.i
 
 /-! ### execution of a well-formed EOF container
 
-`Proofs/InterpEofWf.lean` defines the decidable predicate `wfCtxB` on a container (code sections, types, data,
+`Model/InterpWf.lean` defines the decidable predicate `wfCtxB` (as a proposition: `WfCtx`, `wfCtx_of_check`) on a container (code sections, types, data,
 sub-containers): every byte is a byte; in every code section, at every instruction boundary of the linear scan
 (`boundaries`): the immediates lie inside the section; unless the instruction is terminating (STOP, INVALID, RETURN,
 REVERT, RJUMP, RETF, JUMPF, RETURNCONTRACT, an undefined byte) the next position is again an instruction boundary of the section
@@ -256,7 +257,7 @@ checking. `max_stack_height` is NOT needed: the EOF stack instructions of this i
 /-- the inputs of a frame that runs an EOF container -/
 structure AdmissibleEof (ctx : EofCtx) (input : List Nat) (gasLimit spec : Nat) (env : Env)
     (mem : Memory.SharedMemory) : Prop where
-  wf : wfCtxB ctx = true
+  wf : WfCtx ctx
   inputLen : input.length ≤ Memory.ISIZE_MAX
   gasLt : gasLimit < U64
   envOk : EnvOk spec env
@@ -275,7 +276,7 @@ theorem frameEof_inv (ha : AdmissibleEof ctx input gasLimit spec env mem) :
     ∧ Proofs.Interp.measure (frameEof ctx input gasLimit isStatic spec target caller callValue env mem isInit)
         = gasLimit :=
   initE_inv ctx input gasLimit isStatic spec target caller callValue env mem isInit
-    (wfCtx_of_check ctx ha.wf) ha.inputLen ha.gasLt ha.envOk ha.memFresh
+    ha.wf ha.inputLen ha.gasLt ha.envOk ha.memFresh
 end
 
 section
@@ -375,7 +376,7 @@ end
 example : AdmissibleEof
     { sections := [[0xe3, 0x00, 0x01, 0x00], [0x5f, 0xe1, 0x00, 0x01, 0xe4, 0xe4]],
       types := [(0, 0x80, 0), (0, 0, 1)], data := [1, 2], dataSize := 2 } [0xaa] 100000 19 {} Memory.new :=
-  ⟨by decide, by unfold Memory.ISIZE_MAX; decide, by rw [U64_val]; decide, fun _ => by decide, freshMem_new⟩
+  ⟨wfCtx_of_check _ (by decide), by unfold Memory.ISIZE_MAX; decide, by rw [U64_val]; decide, fun _ => by decide, freshMem_new⟩
 
 /-! ### the tie to validation (C26) -/
 
@@ -386,8 +387,8 @@ and at EVERY instruction boundary of C25's own scan of every code section (`boun
 instruction starts of C26's linear decoding) `InRange` holds: the immediates lie inside the section, CALLF / JUMPF
 name an existing section, EOFCREATE / RETURNCONTRACT name an existing sub-container, every RJUMP / RJUMPI / RJUMPV
 target is a byte of the section, the instruction is not CODESIZE / CODECOPY. The two opcode tables (C25's `decode`,
-C26's `opInfo`) are compared entry by entry (`opcode_tables_agree`). Partial: this is the in-range half of `wfCtxB`;
-the rest is `ValidationGivesWf`. -/
+C26's `opInfo`) are compared entry by entry (`opcode_tables_agree`). Partial: this is the in-range half of `WfCtx`;
+the whole is `validation_gives_wf` below. -/
 theorem validated_wf_partial (bs : List Nat) (t : Option EofValidate.CodeType) (e : Eof.Eof) (hbs : Eof.IsBytes bs)
     (h : EofValidate.validateRawEofInner bs t = .ok e) :
     0 < (ctxOf e).sections.length ∧ (ctxOf e).types.length = (ctxOf e).sections.length ∧
@@ -398,19 +399,36 @@ theorem validated_wf_partial (bs : List Nat) (t : Option EofValidate.CodeType) (
     (∀ sub ∈ (ctxOf e).containers, ∃ e', Eof.Eof.decode sub = .ok e') :=
   validated_inRange hbs h
 
-/-- The remaining gap of the EOF half of C25: whatever `validate_raw_eof_inner` accepts is well-formed in the sense
-of `wfCtxB`. C26 proves the in-range half of it (`Props.C26.validated_in_range_partial`: opcodes EOF-enabled, immediates
-inside the section, section / container indices exist, jump targets inside the section, sub-containers decode) — see
-`validated_wf_partial` above for what follows formally. NOT proved there, hence not here: jump targets are instruction
-*starts*, no section runs off its end, the RETF / JUMPF returning discipline, data-filled sub-containers. `./check C25`
-checks the implication on every container of the lockstep stream that the real `validate_eof` accepts (`wf=1`). -/
-def ValidationGivesWf : Prop :=
+/-- **Validation gives well-formedness** (formerly the named gap of the EOF half; now proved). Whatever
+`validate_raw_eof_inner` accepts satisfies `WfCtx`, the hypothesis of the EOF theorems above. Ingredients:
+* C26: `validateRaw_deep` (in-range facts, `validated_wf_partial`), `section_jumps_on_starts` /
+  `validate_ok_no_jump_into_immediate` (relative jumps land on instruction starts);
+* `Proofs/EofFlow.lean` (loop invariants of `validate_eof_code`): no section runs off its end — every instruction is
+  followed by an instruction of the section unless its opcode is terminating (`is_after_termination` at the end of the
+  loop, `LastInstructionNotTerminating`); a section typed non-returning contains neither RETF nor a JUMPF to a
+  returning section (`NonReturningSectionIsReturning`);
+* `Proofs/EofSubs.lean`, `Proofs/EofTop.lean` (the access tracker): the first section is non-returning; the
+  sub-container of every EOFCREATE is recorded as `ReturnContract`, is then validated as such by
+  `validate_eof_inner`, hence has its data section filled; the sub-container of a RETURNCONTRACT decodes, so its
+  header does and `data_size_raw_i() + 2` is inside it;
+* `Proofs/InterpEofC26.lean`: C25's instruction scan and C26's linear decoding visit the same offsets, the two opcode
+  tables agree (immediate sizes, terminating flags, the container-related opcodes). -/
+theorem validation_gives_wf (bs : List Nat) (t : Option EofValidate.CodeType) (e : Eof.Eof) (hbs : Eof.IsBytes bs)
+    (h : EofValidate.validateRawEofInner bs t = .ok e) : WfCtx (ctxOf e) :=
+  validated_wf hbs h
+
+/-- what is left between the theorems and the compiled code is no longer a Lean statement: that
+`Model.EofValidate` is `analysis.rs` (C26's correspondence stream) and `Model.Interp` is the interpreter (the lockstep
+stream of this property, which also evaluates `wfCtxB` on every container the real validator accepts). Kept as a
+definition so that the dependency is explicit: the statement `validation_gives_wf` proves. -/
+def ValidationGivesWf' : Prop :=
   ∀ (bs : List Nat) (t : Option EofValidate.CodeType) (e : Eof.Eof), Eof.IsBytes bs →
-    EofValidate.validateRawEofInner bs t = .ok e → wfCtxB (ctxOf e) = true
+    EofValidate.validateRawEofInner bs t = .ok e → WfCtx (ctxOf e)
+
+theorem validationGivesWf' : ValidationGivesWf' := validation_gives_wf
 
 /-- C25 for EOF as claimed: for any EOF container that passes validation, execution ends with a defined outcome
-within the gas limit (and never faults). Proved from `ValidationGivesWf` (`fullStatementEof_of_gap`); NOT proved
-outright. -/
+within the gas limit (and never faults). Proved: `fullStatementEof`. -/
 def FullStatementEof : Prop :=
   ∀ {η : Type} (o : Oracle η), OracleOk o → ∀ (h0 : η) (bs : List Nat) (t : Option EofValidate.CodeType)
     (e : Eof.Eof), Eof.IsBytes bs → EofValidate.validateRawEofInner bs t = .ok e →
@@ -421,11 +439,41 @@ def FullStatementEof : Prop :=
     ∃ r out s', (run o fuel (IState.initEof (ctxOf e) input gasLimit isStatic spec target caller callValue env
         Memory.new isInit) h0).1 = .done r out s' ∧ s'.gas.remaining ≤ gasLimit
 
-/-- the EOF half of C25 follows from the validation gap alone -/
-theorem fullStatementEof_of_gap (hgap : ValidationGivesWf) : FullStatementEof := by
+/-- the EOF half of C25 from "validation gives well-formedness" -/
+theorem fullStatementEof_of_gap (hgap : ValidationGivesWf') : FullStatementEof := by
   intro η o ho h0 bs t e hb hv input gasLimit isStatic spec target caller callValue env isInit hil hg henv fuel hf
   exact ends_within_gas_eof o ho h0 (ctxOf e) input gasLimit isStatic spec target caller callValue env Memory.new
     isInit ⟨hgap bs t e hb hv, hil, hg, henv, freshMem_new⟩ fuel hf
+
+/-- **the EOF half of C25**: every container that passes validation runs to a defined outcome within the gas limit,
+for every calldata, gas limit, host and child-frame behaviour -/
+theorem fullStatementEof : FullStatementEof := fullStatementEof_of_gap validationGivesWf'
+
+/-- and it never faults, with the instruction pointer inside the current section and the return stack ≤ 1024 -/
+theorem validated_eof_safe {η : Type} (o : Oracle η) (ho : OracleOk o) (h0 : η) (bs : List Nat)
+    (t : Option EofValidate.CodeType) (e : Eof.Eof) (hbs : Eof.IsBytes bs)
+    (hv : EofValidate.validateRawEofInner bs t = .ok e)
+    (input : List Nat) (gasLimit : Nat) (isStatic : Bool) (spec target caller callValue : Nat) (env : Env)
+    (isInit : Bool) (hil : input.length ≤ Memory.ISIZE_MAX) (hg : gasLimit < U64) (henv : EnvOk spec env) :
+    (∀ fuel f, (run o fuel (IState.initEof (ctxOf e) input gasLimit isStatic spec target caller callValue env
+        Memory.new isInit) h0).1 ≠ .fault f) ∧
+    ∀ s h, Reach o (IState.initEof (ctxOf e) input gasLimit isStatic spec target caller callValue env
+        Memory.new isInit) h0 s h →
+      (∃ c, s.eof = some c ∧ (ctxOf e).sections[c.curIdx]? = some s.code ∧ s.pc < s.code.length ∧
+        c.retStack.length ≤ 1024) ∧ ∀ f, ¬ StepFaults s f := by
+  have ha : AdmissibleEof (ctxOf e) input gasLimit spec env Memory.new :=
+    ⟨validation_gives_wf bs t e hbs hv, hil, hg, henv, freshMem_new⟩
+  refine ⟨fun fuel f => no_panic_eof o ho h0 _ input gasLimit isStatic spec target caller callValue env Memory.new
+    isInit ha fuel f, fun s h hr => ?_⟩
+  obtain ⟨c, hc, hsec, hpc⟩ := pc_in_section_eof o ho h0 _ input gasLimit isStatic spec target caller callValue env
+    Memory.new isInit ha hr
+  obtain ⟨⟨c', hc', _, hrs⟩, _⟩ := return_stack_bounded_eof o ho h0 _ input gasLimit isStatic spec target caller
+    callValue env Memory.new isInit ha hr
+  rw [hc] at hc'
+  have e1 := Option.some.inj hc'
+  subst e1
+  exact ⟨⟨c, hc, hsec, hpc, hrs⟩, fun f => step_never_faults_eof o ho h0 _ input gasLimit isStatic spec target
+    caller callValue env Memory.new isInit ha hr f⟩
 
 /-- without validation the statement is false: a relative jump may leave the section (here RJUMP +16 in a
 4-byte section; the next fetch is outside the buffer) -/
